@@ -1,6 +1,7 @@
 import TflModel.Lemmas.LatticeExec
 import TflModel.Lemmas.TrapezoidFold
 import TflModel.Lemmas.TrapezoidBump
+import TflModel.Lemmas.TrapezoidRunning
 /-!
 # C01 — the Lattice weight constraint (strict mode) / `finalize_constraints` return kernels that
 meet every strict shape constraint
@@ -18,9 +19,14 @@ Proved at full strength for the configuration classes
   (C1) Edgeworth AND trapezoid trusts where no trapezoid trust has a matching Edgeworth trust, no
       trapezoid conditional axis is monotone and no two trapezoid trusts share a conditional axis
                                                             — `C01_strict_mixed_nonmatching_class`
+  (C) = (A) ∪ (B) ∪ (C1) ∪ (C2): any Edgeworth trusts and any trapezoid trusts, each trapezoid trust
+      WITH its matching Edgeworth trust (running-max mode, the common configuration) or without;
+      when Edgeworth trusts are present no two trapezoid trusts share a conditional axis and —
+      unless the lattice has rank 2 — no trapezoid conditional axis is monotone (= H_trap)
+                                                            — `C01_strict_mixed_class`
 and transported to the executable table model (`C01_exec_*`).
-The remaining configurations (a trapezoid trust WITH its matching Edgeworth trust — the running-max
-mode —, or with a monotone conditional axis while Edgeworth trusts are present) are covered by the
+The remaining configurations (Edgeworth trusts present and a trapezoid trust with a shared
+conditional axis, or with a monotone one in rank ≥ 3) are covered by the
 correspondence + oracle of every run; inside them the class "Edgeworth present ∧ trapezoid with monotone conditional axis ∧ a third
 axis" genuinely violates the property (finding F-C01-a): `C01_counter_witness`.
 `C01_full` keeps the unrestricted statement visible.
@@ -324,6 +330,102 @@ theorem C01_exec_mixed_nonmatching_class (c : Cfg) (hwf : CfgWF c) (hmx : MixedW
   rw [hag idx hr]; exact h4 idx hr
 
 
+/-- side conditions of the general mixed class (C): the first three are what `verify_hyperparameters`
+guarantees (lattice sizes ≥ 2; no feature is both a main and a conditional feature; two trusts on
+the same pair of features have the same direction, i.e. an Edgeworth trust on the grid of a
+trapezoid trust IS the matching one); the last two are the restriction H_trap and only apply when
+Edgeworth trusts are configured (`cond_free` moreover only when the lattice has an axis besides the
+main and the conditional one: in rank 2 monotone conditional axes are allowed) -/
+structure MixedClassWF (c : Cfg) : Prop where
+  sizes : ∀ tr ∈ c.trapezoid, 2 ≤ c.sizes.getD tr.main 0 ∧ 1 ≤ c.sizes.getD tr.cond 0
+  roles : ∀ a ∈ c.trapezoid, ∀ b ∈ c.trapezoid, b.cond ≠ a.main
+  compat : ∀ tr ∈ c.trapezoid, ∀ e ∈ c.edgeworth, e = tr ∨ Compatible tr e
+  distinct : c.edgeworth ≠ [] → c.trapezoid.Pairwise (fun a b => a.cond ≠ b.cond)
+  cond_free : c.edgeworth ≠ [] → c.sizes.length ≠ 2 → ∀ tr ∈ c.trapezoid, c.mono.getD tr.cond false = false
+
+/-- **C01 (class C, general mixed class): any Edgeworth trusts and any trapezoid trusts, each
+trapezoid trust matching an Edgeworth trust (running-max mode) or not; with Edgeworth trusts
+present, conditional axes of trapezoid trusts are pairwise distinct and — unless the lattice has
+rank 2 — not monotone. This is exactly H_trap of DESIGN.md.** For every
+accepted configuration of this class and EVERY input kernel, the strict finalisation followed by the
+final clip returns a kernel that is monotone along every monotone dimension, satisfies every
+Edgeworth inequality (the matching ones included), every trapezoid inequality and the bounds. -/
+theorem C01_strict_mixed_class (c : Cfg) (hwf : CfgWF c) (hmx : MixedClassWF c) (w : W) :
+    Strict c (clipBounds c.lo c.hi (finalize c w)) := by
+  by_cases hnt : c.trapezoid = []
+  · exact C01_strict_edgeworth_class c hwf hnt w
+  by_cases hne : c.edgeworth = []
+  · exact C01_strict_trapezoid_class c hwf ⟨hmx.sizes, hmx.roles⟩ hne w
+  have hclipIn : InBounds c.sizes c.lo c.hi (clipBounds c.lo c.hi (finalize c w)) :=
+    fun idx _ => clipBounds_in c.lo c.hi hwf.bounds _ idx
+  obtain ⟨t0, ht0⟩ : ∃ t, t ∈ c.trapezoid := by
+    cases h : c.trapezoid with
+    | nil => exact absurd h hnt
+    | cons a r => exact ⟨a, List.mem_cons_self ..⟩
+  obtain ⟨hwt0, hmain0⟩ := hwf.trust_wf t0 (List.mem_append_right _ ht0)
+  have hhas : hasMono c = true := by
+    have hmem : t0.main ∈ monoDims c.sizes c.mono := mem_monoDims.mpr ⟨hwt0.1, hmain0⟩
+    unfold hasMono
+    cases hl : monoDims c.sizes c.mono with
+    | nil => rw [hl] at hmem; cases hmem
+    | cons a r => rfl
+  have hnotboth : c.trapezoid.isEmpty = false := by
+    cases h : c.trapezoid with
+    | nil => exact absurd h hnt
+    | cons a r => simp
+  have hfin : finalize c w = approxBounds c.sizes c.lo c.hi
+      (approxTrapezoid c.sizes c.edgeworth c.trapezoid
+        (approxEdgeworth c.sizes c.edgeworth (approxMono c.sizes c.mono w))) := by
+    unfold finalize
+    simp only [hhas, hnotboth, Bool.and_false, Bool.not_true, Bool.false_eq_true, if_false]
+  have hE := approxEdgeworth_spec c.sizes c.edgeworth
+    (fun tr h => (hwf.trust_wf tr (List.mem_append_left _ h)).1) hwf.compat
+    (approxMono c.sizes c.mono w) [] (by simp) (by simp) (by simp)
+  have hT := approxTrapezoid_mixed_spec (sizes := c.sizes) c.edgeworth
+    (fun e h => (hwf.trust_wf e (List.mem_append_left _ h)).1) c.trapezoid
+    (fun tr h => ⟨trapMode_of_ne_nil tr hne, (hwf.trust_wf tr (List.mem_append_right _ h)).1,
+      (hmx.sizes tr h).1, hmx.compat tr h⟩)
+    hmx.roles (hmx.distinct hne) (approxEdgeworth c.sizes c.edgeworth (approxMono c.sizes c.mono w)) []
+    (by simp) (by simp) (fun e he => hE.1 e (Or.inr he))
+  have haff := approxBounds_affine c.sizes c.lo c.hi hwf.bounds
+    (approxTrapezoid c.sizes c.edgeworth c.trapezoid
+      (approxEdgeworth c.sizes c.edgeworth (approxMono c.sizes c.mono w)))
+  have hag : AgreeOn c.sizes (finalize c w) (clipBounds c.lo c.hi (finalize c w)) := by
+    intro idx hr
+    have hb := approxBounds_in c.sizes c.lo c.hi hwf.bounds
+      (approxTrapezoid c.sizes c.edgeworth c.trapezoid
+        (approxEdgeworth c.sizes c.edgeworth (approxMono c.sizes c.mono w))) hr
+    rw [← hfin] at hb
+    exact (clipBounds_fix c.lo c.hi _ idx hb.1 hb.2).symm
+  refine ⟨fun d hd hm => ?_, fun tr htr => ?_, fun tr htr => ?_, hclipIn⟩
+  · apply clipBounds_mono
+    rw [hfin]
+    refine haff.mono (hT.2.2 d hd (fun tr htr => ?_) (hE.2 d (approxMono_mono c.sizes c.mono w hd hm)))
+    by_cases hr2 : c.sizes.length = 2
+    · exact Or.inr hr2
+    · refine Or.inl (fun e => ?_)
+      have := hmx.cond_free hne hr2 tr htr
+      rw [← e, hm] at this; cases this
+  · refine EdgeOK.congr hag ?_
+    rw [hfin]
+    exact haff.edgeOK (hT.2.1 tr htr)
+  · refine TrapOK.congr hag ?_
+    rw [hfin]
+    exact AffinePos_trapOK haff (hT.1 tr (Or.inr htr))
+
+/-- class (C) on the EXECUTABLE model that the correspondence check ties to the real code -/
+theorem C01_exec_mixed_class (c : Cfg) (hwf : CfgWF c) (hmx : MixedClassWF c) (t : Table) :
+    Strict c (runStage c.sizes (clipBounds c.lo c.hi) (finalizeT c t)).get := by
+  have hag : AgreeOn c.sizes (runStage c.sizes (clipBounds c.lo c.hi) (finalizeT c t)).get
+      (clipBounds c.lo c.hi (finalize c t.get)) :=
+    runStage_agree (clipBounds_local c.sizes c.lo c.hi)
+      (finalizeT_agree c (fun tr h => by have := (hmx.sizes tr h).1; omega) (AgreeOn.refl _ _))
+  obtain ⟨h1, h2, h3, h4⟩ := C01_strict_mixed_class c hwf hmx t.get
+  refine ⟨fun d hd hm => (h1 d hd hm).congr hag.symm, fun tr htr => EdgeOK.congr hag.symm (h2 tr htr),
+    fun tr htr => TrapOK.congr hag.symm (h3 tr htr), fun idx hr => ?_⟩
+  rw [hag idx hr]; exact h4 idx hr
+
+
 /-! ### non-vacuity: a rank-3, two-trust configuration with both directions meets `CfgWF` -/
 def exampleCfg : Cfg :=
   { sizes := [3, 2, 3], mono := [true, false, true],
@@ -378,6 +480,75 @@ example : MixedWF exampleMixedCfg where
   distinct := by simp [exampleMixedCfg]
   cond_free := by intro tr h; simp only [exampleMixedCfg, List.mem_singleton] at h; subst h; decide
 
+/-- a class-(C) configuration beyond (C1): Edgeworth (0,2,+) together with the MATCHING trapezoid
+trust (0,2,+) — running-max mode — and a non-matching trapezoid trust (0,1,−), free conditional
+axes 1 and 2 -/
+def exampleMatchingCfg : Cfg :=
+  { sizes := [2, 3, 3], mono := [true, false, false],
+    edgeworth := [⟨0, 2, true⟩], trapezoid := [⟨0, 2, true⟩, ⟨0, 1, false⟩], lo := some 0, hi := some 4 }
+example : CfgWF exampleMatchingCfg where
+  trust_wf := by
+    intro tr h
+    simp only [exampleMatchingCfg, List.cons_append, List.nil_append, List.mem_cons, List.not_mem_nil,
+      or_false] at h
+    rcases h with rfl | rfl | rfl <;> exact ⟨⟨by decide, by decide, by decide⟩, by decide⟩
+  compat := by simp [exampleMatchingCfg]
+  bounds := by intro l h e1 e2; cases e1; cases e2; norm_num
+example : MixedClassWF exampleMatchingCfg where
+  sizes := by
+    intro tr h
+    simp only [exampleMatchingCfg, List.mem_cons, List.not_mem_nil, or_false] at h
+    rcases h with rfl | rfl <;> exact ⟨by decide, by decide⟩
+  roles := by
+    intro a ha b hb
+    simp only [exampleMatchingCfg, List.mem_cons, List.not_mem_nil, or_false] at ha hb
+    rcases ha with rfl | rfl <;> rcases hb with rfl | rfl <;> decide
+  compat := by
+    intro tr h e he
+    simp only [exampleMatchingCfg, List.mem_cons, List.not_mem_nil, or_false] at h he
+    subst he
+    rcases h with rfl | rfl
+    · exact Or.inl rfl
+    · exact Or.inr ⟨by decide, by decide, by decide⟩
+  distinct := by intro _; simp [exampleMatchingCfg]
+  cond_free := by
+    intro _ _ tr h
+    simp only [exampleMatchingCfg, List.mem_cons, List.not_mem_nil, or_false] at h
+    rcases h with rfl | rfl <;> decide
+/-- the two trusts of that configuration really run in the two scalar modes -/
+example : trapMode exampleMatchingCfg.edgeworth ⟨0, 2, true⟩ = .runningMax ∧
+    trapMode exampleMatchingCfg.edgeworth ⟨0, 1, false⟩ = .maxBehind := by decide
+/-- … and the projection genuinely moves an infeasible kernel of that configuration -/
+example : Table.vals exampleMatchingCfg.sizes (finalizeT exampleMatchingCfg
+    (Table.ofVals exampleMatchingCfg.sizes [0,3,1, 2,0,5, 1,1,0,  4,0,2, 1,3,0, 0,2,6]))
+    ≠ [0,3,1, 2,0,5, 1,1,0,  4,0,2, 1,3,0, 0,2,6] := by decide +kernel
+
+/-- the rank-2 sub-case of class (C): Edgeworth (0,1,+) with its matching trapezoid trust and a
+MONOTONE conditional axis -/
+def exampleRank2Cfg : Cfg :=
+  { sizes := [3, 3], mono := [true, true], edgeworth := [⟨0, 1, true⟩], trapezoid := [⟨0, 1, true⟩] }
+example : CfgWF exampleRank2Cfg where
+  trust_wf := by
+    intro tr h
+    simp only [exampleRank2Cfg, List.cons_append, List.nil_append, List.mem_cons, List.not_mem_nil,
+      or_false, or_self] at h
+    subst h; exact ⟨⟨by decide, by decide, by decide⟩, by decide⟩
+  compat := by simp [exampleRank2Cfg]
+  bounds := by intro l h e1; cases e1
+example : MixedClassWF exampleRank2Cfg where
+  sizes := by intro tr h; simp only [exampleRank2Cfg, List.mem_singleton] at h; subst h; exact ⟨by decide, by decide⟩
+  roles := by
+    intro a ha b hb
+    simp only [exampleRank2Cfg, List.mem_singleton] at ha hb; subst ha; subst hb; decide
+  compat := by
+    intro tr h e he
+    simp only [exampleRank2Cfg, List.mem_singleton] at h he; subst h; subst he; exact Or.inl rfl
+  distinct := by intro _; simp [exampleRank2Cfg]
+  cond_free := by intro _ h; exact absurd rfl h
+example : Table.vals exampleRank2Cfg.sizes (finalizeT exampleRank2Cfg
+    (Table.ofVals exampleRank2Cfg.sizes [0,2,1, 3,0,4, 1,5,2]))
+    ≠ [0,2,1, 3,0,4, 1,5,2] := by decide +kernel
+
 /-! ### finding F-C01-a: the unrestricted statement is false -/
 def witnessCfg : Cfg :=
   { sizes := [2, 2, 2], mono := [true, true, false], edgeworth := [⟨0, 2, true⟩],
@@ -393,5 +564,11 @@ theorem C01_counter_witness :
 theorem C01_counter_witness_values :
     Table.vals [2,2,2] (finalizeT witnessCfg (Table.ofVals [2,2,2] [1,0,0,3,0,0,0,0])) =
       [1/2, 0, 1/2, 3/2, 2, 3/2, 1/2, 3/2] := by decide +kernel
+
+/-- the counter-witness configuration is outside class (C): Edgeworth trusts are present and the
+conditional axis 1 of its trapezoid trust is monotone -/
+example : ¬ MixedClassWF witnessCfg := fun h => by
+  have := h.cond_free (by simp [witnessCfg]) (by decide) ⟨0, 1, false⟩ (by simp [witnessCfg])
+  revert this; decide
 
 end Tfl.C01
